@@ -1,7 +1,8 @@
 SPECIFICATION Spec
-CONSTANTS NSet = {100, 500, 5000}  CSet = {2, 5}  Kinds = {"default", "user"}  Reps = {1}  Dev = "none"
+CONSTANTS NSet = {100, 500, 5000}  CSet = {2, 5}  Kinds = {"default", "user"}  Reps = {1}  SharedKw = FALSE  KFixAll = TRUE  Dev = "none"
 CHECK_DEADLOCK FALSE
 INVARIANT NoLikelihoodLoss
 INVARIANT AtLeastGenerating
 INVARIANT Admissible
 INVARIANT ScaleEquivariant
+INVARIANT HistoryIndependent
